@@ -102,7 +102,7 @@ def run(ctx):
     run_driver_sharded(ctx, exe, lines, tr, what="drv_btree", extra_args=["1", "0123", "0123456789"], header="P")
     exe_a = build_driver(ctx, asan=True)
     sub = rng.sample(lines, max(1, len(lines) // (4 if quick else 1)))
-    run_driver_sharded(ctx, exe_a, sub, ctx.path("bts_asan.ndjson"), what="drv_btree(asan)", extra_args=["1", "0123", "0123456789"], header="P",
+    run_driver_sharded(ctx, exe_a, sub, "/dev/null", what="drv_btree(asan)", extra_args=["1", "0123", "0123456789"], header="P",
                        env={"ASAN_OPTIONS": "detect_leaks=1"})
     if not (os.path.exists(tr) and os.path.getsize(tr)):
         return
